@@ -4,7 +4,7 @@ from .. import tlc
 SCRIPTS = """ScriptsV == { <<ServerFrame(1,0,1,<<104>>) \\o ServerFrame(1,0,9,<<>>) \\o ServerFrame(1,0,8,<<3,232>>), TRUE>>,
   <<<<>>, FALSE>>, <<<<>>, TRUE>>, <<ServerFrame(1,0,8,<<3,233>>), FALSE>>,
   <<ServerFrame(1,0,8,<<3,232>>) \\o ServerFrame(1,0,8,<<3,232>>), TRUE>>, <<ServerFrame(1,0,2,<<1>>) \\o ServerFrame(1,0,1,<<97>>), FALSE>> }
-CallNamesV == {"send", "ping", "recv", "close", "close_bad", "send_close", "shutdown"}
+CallNamesV == {"send", "ping", "recv", "close", "close_bad", "send_close", "shutdown", "settimeout", "gettimeout", "abort"}
 """
 
 
